@@ -1,6 +1,7 @@
 package main
 
 import (
+	"go/constant"
 	"fmt"
 	"go/token"
 	"go/types"
@@ -19,9 +20,9 @@ func init() {
 				"C01.see (ancestry comparisons on per-creator indexes are non-strict >=; the coordinate merge keeps the larger index), " +
 				"C01.fame (fame is set only for an undecided witness, in a normal (non-coin) round, by a supermajority; COIN_ROUND_FREQ/ROOT_DEPTH are compile-time constants; Famous / decided have a single writer; a decided round stays decided), " +
 				"C01.rr (round-received needs all witnesses of the round decided, every famous witness seeing the event, at least a supermajority of them; first such round only; search starts at round(x)+1), " +
-				"C01.order (the consensus sort reads only Lamport timestamp and signature; Frame.Events is stored sorted), C01.inorder (rounds processed ascending, shared with C02.order), C01.roundonce (a decided round is turned into a block once, also across error exits: a node that delivers a round twice disagrees with its peers at every later index; shared with C02.once), C01.peers (a recorded validator set is never reordered or overwritten in place — by anybody, the HTTP service included: the peer-set hash a node writes into its blocks is computed over that slice; shared with C10.immutable). " +
+				"C01.order (the consensus sort reads only Lamport timestamp and signature; Frame.Events is stored sorted), C01.inorder (rounds processed ascending, shared with C02.order), C01.roundonce (a decided round is turned into a block once, also across error exits: a node that delivers a round twice disagrees with its peers at every later index; shared with C02.once), C01.undecided (the search for the round received stops at the first round with undecided fame; it may go on only past a round i at or below the reset point of a fast-forwarded node, tested on i itself; shared with C04.undecided), C01.peers (a recorded validator set is never reordered or overwritten in place — by anybody, the HTTP service included: the peer-set hash a node writes into its blocks is computed over that slice; shared with C10.immutable). " +
 				"NOT covered: correctness of the voting scheme itself, the coin, that `break VOTE_LOOP` is order-independent, LRU eviction of RoundInfo objects."},
-		Rules: []ruleFunc{c01thr, c01pair, c01see, c01fame, c01rr, c01order, func(p *Prog, r *Report) { c02orderAs(p, r, "C01.inorder") }, func(p *Prog, r *Report) { onceRule(p, r, "C01.roundonce") }, c01peers},
+		Rules: []ruleFunc{c01thr, c01pair, c01see, c01fame, c01rr, c01order, func(p *Prog, r *Report) { c02orderAs(p, r, "C01.inorder") }, func(p *Prog, r *Report) { onceRule(p, r, "C01.roundonce") }, c01peers, func(p *Prog, r *Report) { undecidedSkipRule(p, r, "C01.undecided") }},
 	})
 	register(&propDef{
 		ID: "C04", NeedCG: true,
@@ -31,7 +32,7 @@ func init() {
 				"C04.batch (block transactions / internal transactions are the in-order concatenation over frame.Events of each event's own slice; frame events are createFrameEvent(h) for exactly the ReceivedEvents of the frame's round; ReceivedEvents is appended only under the round-received action), " +
 				"C04.once (an event leaves the undetermined queue iff it was received; the queue is replaced by the remainder on the success exit; only InsertEvent appends to it; a committed round is never processed again). " +
 				"NOT decided: monotonicity of round-received along ancestry for actual DAGs (a theorem about lastAncestors maintenance, partly covered by C01.see)."},
-		Rules: []ruleFunc{c04lamport, c04sort, c04batch, c04once, func(p *Prog, r *Report) { onceRule(p, r, "C04.roundonce") }},
+		Rules: []ruleFunc{c04lamport, c04sort, c04batch, c04once, func(p *Prog, r *Report) { onceRule(p, r, "C04.roundonce") }, func(p *Prog, r *Report) { undecidedSkipRule(p, r, "C04.undecided") }},
 	})
 }
 
@@ -540,6 +541,66 @@ func c01fame(p *Prog, r *Report) {
 	r.Check(okUndef, rule, "WitnessesDecided:undecided-witness-blocks", p.pos(wd.Pos()), fnName(wd), "any undecided witness makes the round undecided", "WitnessesDecided has no early false for an undecided witness")
 }
 
+/* ---------- undecided rounds in the round-received search ---------- */
+
+// undecidedSkipRule: the search for the round received goes through the rounds in ascending order
+// and must STOP at the first round whose fame is undecided. The only exception is a round at or
+// below the reset point of a fast-forwarded node (never processed by DecideFame): the loop may go
+// on past an undecided round i only under roundLowerBound != nil && *roundLowerBound >= i — with i
+// the round being examined, not the event's own round (an event below the reset point would
+// otherwise jump over undecided rounds above it and be received after its descendants).
+func undecidedSkipRule(p *Prog, r *Report, rule string) {
+	r.Rule(rule, 1, "DecideRoundReceived continues past an undecided round i only if *roundLowerBound >= i (i = the round examined)")
+	fn := p.Func(HG, "Hashgraph", "DecideRoundReceived")
+	fLB := p.Field(HG, "Hashgraph", "roundLowerBound")
+	if fn == nil || fLB == nil {
+		r.Anchor(rule, "Hashgraph.DecideRoundReceived / roundLowerBound")
+		return
+	}
+	loops := naturalLoops(fn)
+	n := 0
+	for _, wdc := range callsIn(fn, named(HG+".RoundInfo.WitnessesDecided")) {
+		wd, ok := wdc.(*ssa.Call)
+		if !ok {
+			continue
+		}
+		lp := innermostLoop(loops, wd.Block())
+		if lp == nil {
+			continue
+		}
+		roundVal := roundArgOf(recvOf(wd), storeM("GetRound"))
+		if roundVal == nil {
+			continue
+		}
+		n++
+		qUndecided := func(l Lit) bool {
+			return !l.Pos && !l.Nil && unwrap(l.V) == ssa.Value(wd)
+		}
+		qLB := func(l Lit) bool {
+			a, b, strict, ok := cmpLit(l) // a >= b
+			if !ok || strict {
+				return false
+			}
+			return depOnFieldVar(a, fLB) && sameRoundExpr(b, roundVal)
+		}
+		okAll := true
+		for _, latch := range lp.head.Preds {
+			if !lp.body[latch] {
+				continue
+			}
+			g, _ := p.allPathsEdge(latch, lp.head, []Pred{qUndecided, qLB}, func(m uint32) bool { return m&1 == 0 || m&2 != 0 })
+			if !g {
+				okAll = false
+			}
+		}
+		r.Check(okAll, rule, "DecideRoundReceived:undecided-round-stops-the-search", p.ipos(wd), fnName(fn), "an undecided round ends the search unless it lies at or below the reset point",
+			"the loop over rounds can continue past round i with undecided fame without *roundLowerBound >= i (i the round examined): an event can be received in a later round than its descendants, or before the fame that decides it")
+	}
+	if n == 0 {
+		r.Fail(rule, "DecideRoundReceived:undecided-round-stops-the-search", p.pos(fn.Pos()), fnName(fn), "no WitnessesDecided test inside the loop over rounds")
+	}
+}
+
 /* ---------- C01.rr ---------- */
 
 func c01rr(p *Prog, r *Report) {
@@ -1006,32 +1067,68 @@ func c04sort(p *Prog, r *Report) {
 		eq := (b.Op == token.EQL && l.Pos) || (b.Op == token.NEQ && !l.Pos)
 		return eq && ((isLT(b.X, pi) && isLT(b.Y, pj)) || (isLT(b.X, pj) && isLT(b.Y, pi)))
 	}
+	// ordering literals between the two timestamps
+	cmpIJ := func(l Lit, wantStrict bool, iGreater bool) bool {
+		a, b, strict, ok := cmpLit(l) // a > b (strict) or a >= b
+		if !ok || strict != wantStrict {
+			return false
+		}
+		if iGreater {
+			return isLT(a, pi) && isLT(b, pj)
+		}
+		return isLT(a, pj) && isLT(b, pi)
+	}
+	qIltJ := func(l Lit) bool { return cmpIJ(l, true, false) }
+	qIgtJ := func(l Lit) bool { return cmpIJ(l, true, true) }
+	qIgeJ := func(l Lit) bool { return cmpIJ(l, false, true) }
+	qIleJ := func(l Lit) bool { return cmpIJ(l, false, false) }
+	preds := []Pred{qSame, qIltJ, qIgtJ, qIgeJ, qIleJ, qDiff}
+	tie := func(m uint32) bool { return m&1 != 0 || (m&8 != 0 && m&16 != 0) }
 	nLT, okLT, okTie := 0, true, true
 	for _, b := range less.Blocks {
 		ret, ok := b.Instrs[len(b.Instrs)-1].(*ssa.Return)
 		if !ok || (b.Index != 0 && len(b.Preds) == 0) {
 			continue
 		}
-		v := ret.Results[0]
-		if bo, isB := v.(*ssa.BinOp); isB && flowsFromField(bo.X, "LamportTimestamp") && flowsFromField(bo.Y, "LamportTimestamp") {
-			nLT++
-			lo, hi := bo.X, bo.Y
-			switch bo.Op {
-			case token.LSS:
-			case token.GTR:
-				lo, hi = hi, lo
-			default:
-				okLT = false
+		for _, rp := range retPointsOf(ret, 0) {
+			v := rp.val
+			hold := func(f func(uint32) bool) bool {
+				g, _ := p.holdsAtRet(rp, preds, f)
+				return g
 			}
-			if !(isLT(lo, pi) && isLT(hi, pj)) {
-				okLT = false
+			if bo, isB := v.(*ssa.BinOp); isB && flowsFromField(bo.X, "LamportTimestamp") && flowsFromField(bo.Y, "LamportTimestamp") {
+				// the comparison itself is returned
+				nLT++
+				lo, hi := bo.X, bo.Y
+				switch bo.Op {
+				case token.LSS:
+				case token.GTR:
+					lo, hi = hi, lo
+				default:
+					okLT = false
+				}
+				if !(isLT(lo, pi) && isLT(hi, pj)) {
+					okLT = false
+				}
+				continue
 			}
-			if g, _ := p.allPaths(ret, []Pred{qDiff}, all(1)); !g {
-				okLT = false
+			if c, isC := v.(*ssa.Const); isC && c.Value != nil && c.Value.Kind() == constant.Bool {
+				if constant.BoolVal(c.Value) {
+					// true: i before j — only when LT_i < LT_j is established, or in the tie region
+					if hold(func(m uint32) bool { return m&2 != 0 }) {
+						nLT++
+						continue
+					}
+				} else if hold(func(m uint32) bool { return m&4 != 0 }) {
+					continue
+				}
+				if !hold(tie) {
+					okLT = false
+				}
+				continue
 			}
-		} else {
-			// tie-break return
-			if g, _ := p.allPaths(ret, []Pred{qSame}, all(1)); !g {
+			// anything else is the tie-break
+			if !hold(tie) {
 				okTie = false
 			}
 		}
